@@ -1078,6 +1078,16 @@ def _check_starred_snapshot(ctx, m, f, site, rc, bname, g, dom, mut_nodes):
     if isinstance(val, ast.Name) and val.id == site.tuple_var:
         ctx.bad("C04.2", f, stn, f"`{bname}` is the live memo tuple itself, not a snapshot: the rollback restores nothing")
         return
+    if isinstance(val, ast.Tuple) and len(val.elts) == 4 and any(isinstance(e, ast.Name) and e.id not in [x for x in site.live if x] for e in val.elts):
+        # `x_bak = x.copy()` ... `baks = (x_bak, y_bak, ..)`: elements named before they are bundled
+        elts_ = []
+        for e in val.elts:
+            if isinstance(e, ast.Name) and e.id not in [x for x in site.live if x]:
+                ds_ = c05._assignments_to(f, e.id)
+                if len(ds_) == 1 and ds_[0][2] is None and ds_[0][1] is not None:
+                    e = ds_[0][1]
+            elts_.append(e)
+        val = ast.copy_location(ast.Tuple(elts=elts_, ctx=ast.Load()), val)
     if isinstance(val, ast.Tuple) and len(val.elts) == 4:
         for i, e in enumerate(val.elts):
             if isinstance(e, ast.Name) and e.id in [x for x in site.live if x]:
@@ -1091,6 +1101,25 @@ def _check_starred_snapshot(ctx, m, f, site, rc, bname, g, dom, mut_nodes):
             and isinstance(inner.generators[0].target, ast.Name) and isinstance(inner.elt, ast.Name) and inner.elt.id == inner.generators[0].target.id)
         if shallow:
             ctx.bad("C04.2", f, stn, f"the snapshot `{bname} = {short(val, 50)}` holds the live memos themselves (a new tuple of the same dicts), not copies: the rollback restores nothing")
+            return
+    if site.tuple_var is not None and isinstance(val, ast.Tuple) and len(val.elts) == 4:
+        # `(tv[0].copy(), tv[1].copy(), tv[2].copy(), tv[3].copy())`: a copy of each slot of the live tuple
+        idxs = []
+        for e in val.elts:
+            inner_ = None
+            if isinstance(e, ast.Call) and isinstance(e.func, ast.Attribute) and e.func.attr == "copy" and not e.args:
+                inner_ = e.func.value
+            elif isinstance(e, ast.Call) and norm(e.func) in ("dict", "copy.copy") and len(e.args) == 1:
+                inner_ = e.args[0]
+            if isinstance(inner_, ast.Subscript) and isinstance(inner_.value, ast.Name) and inner_.value.id == site.tuple_var and isinstance(inner_.slice, ast.Constant):
+                idxs.append(inner_.slice.value)
+            else:
+                idxs.append(None)
+        if None not in idxs:
+            if idxs == [0, 1, 2, 3]:
+                ctx.ok("C04.2", f.qualname, f"snapshot tuple `{bname}` = a copy of each slot of `{site.tuple_var}`, in order")
+                return
+            ctx.bad("C04.3", f, stn, f"the snapshot tuple `{bname}` copies the slots of `{site.tuple_var}` in the order {idxs}, not (single, variadic, pytree, arguments)")
             return
     ok = site.tuple_var is not None and _copies_each_in_order(val, site.tuple_var)
     if not ok and site.tuple_var is not None and isinstance(val, ast.Call) and [norm(a) for a in val.args] == [site.tuple_var]:
@@ -1146,6 +1175,16 @@ def f_calls(f):
     return [n for n in walk_scope(f.node) if isinstance(n, ast.Call)]
 
 
+def _is_memo_tuple_name(f, r, name) -> bool:
+    """a local / parameter that holds the 4-tuple of memos: bound from get_shape_memo() / push_shape_memo(), or called `memos`"""
+    if name == "memos":
+        return True
+    for d in c05._assignments_to(f, name):
+        if d[2] is None and isinstance(d[1], ast.Call) and r.role_of_call(f, d[1]) in ("get_shape_memo", "push_shape_memo"):
+            return True
+    return False
+
+
 # ------------------------------------------------------------------------ C04.3
 def check_slot_agreement(ctx: RuleContext, r):
     m = ctx.model
@@ -1177,6 +1216,16 @@ def check_slot_agreement(ctx: RuleContext, r):
                 if callee.cls is not None and params and t.recv is not None:
                     params = params[1:]  # bound method: self/cls supplied by the receiver
                 for i, a in enumerate(n.args):
+                    if isinstance(a, ast.Subscript) and isinstance(a.value, ast.Name) and isinstance(a.slice, ast.Constant) and isinstance(a.slice.value, int) \
+                            and 0 <= a.slice.value < 4 and i < len(params) and memo_role(params[i]) is not None and _is_memo_tuple_name(f, r, a.value.id):
+                        # a slot of the memo tuple passed by position (`memos[2]` for `pytree_memo`)
+                        n_sites += 1
+                        ra, rp = CANON[a.slice.value], memo_role(params[i])
+                        if ra != rp:
+                            ctx.bad("C04.3", f, n, f"`{norm(a)}` (the {ra} memo) is passed for parameter `{params[i]}` ({rp} memo) of {callee.qualname}")
+                        else:
+                            ctx.ok("C04.3", f.qualname, f"`{norm(a)}` -> {callee.name}.{params[i]}: same slot ({ra})")
+                        continue
                     if isinstance(a, ast.Name) and i < len(params):
                         ra = memo_role(a.id)
                         rp = memo_role(params[i])
